@@ -824,6 +824,168 @@ pub fn check_case(case: &Case, ctx: &mut Ctx) -> Verdict {
     Verdict::Pass
 }
 
+
+// ---------------------------------------------------------------------------------------------
+// second family: a name that is an alternative to a positional item, `(FILE | --stdin)`.
+// A freshly typed "", `-`, `--` or `--pre` starts a name: the named alternative must be offered
+// whatever precedes the word (a switch given before, the name of the command holding the choice)
+// ---------------------------------------------------------------------------------------------
+
+pub struct PosAltCase {
+    pub level: Level,
+    pub argv: Vec<Vec<u8>>,
+    pub want: Vec<String>,
+}
+
+pub fn decode_posalt(bytes: &[u8]) -> PosAltCase {
+    let mut u = Un::new(bytes);
+    let mut names = Names::new();
+    names.ascii_only = true;
+    let mut fields: Vec<Node> = Vec::new();
+    let mut switches: Vec<NamedSpec> = Vec::new();
+    for _ in 0..u.below(3) {
+        let n = gen_named_leaf(&mut u, &mut names, NamedKind::Switch);
+        switches.push(n.clone());
+        fields.push(Node::Named(n));
+    }
+    let named = if u.bool() {
+        gen_named_leaf(&mut u, &mut names, NamedKind::ReqFlag)
+    } else {
+        gen_named_leaf(
+            &mut u,
+            &mut names,
+            NamedKind::Arg {
+                ty: Ty::Str,
+                metavar: "URL".into(),
+                adjacent: false,
+            },
+        )
+    };
+    let pos = Node::Pos(PosSpec {
+        id: names.id(),
+        metavar: "FILE".into(),
+        ty: Ty::Str,
+        help: None,
+        strict: Strictness::Unrestricted,
+    });
+    let alt = if u.bool() {
+        Node::Alt(vec![pos, Node::Named(named.clone())])
+    } else {
+        Node::Alt(vec![Node::Named(named.clone()), pos])
+    };
+    fields.push(alt);
+    let inner = Level::simple(Node::Seq(fields));
+    let in_cmd = u.chance(110);
+    let mut argv: Vec<Vec<u8>> = Vec::new();
+    let level = if in_cmd {
+        let name = names.cmd(&mut u);
+        argv.push(name.as_bytes().to_vec());
+        let other = names.cmd(&mut u);
+        Level::simple(Node::Seq(vec![Node::Alt(vec![
+            Node::Cmd(Box::new(CmdSpec {
+                name,
+                shorts: Vec::new(),
+                longs: Vec::new(),
+                help: None,
+                adjacent: false,
+                level: inner,
+            })),
+            Node::Cmd(Box::new(CmdSpec {
+                name: other,
+                shorts: Vec::new(),
+                longs: Vec::new(),
+                help: None,
+                adjacent: false,
+                level: Level::simple(Node::Seq(vec![Node::Pure("other".into())])),
+            })),
+        ])]))
+    } else {
+        inner
+    };
+    let mut want: Vec<String> = Vec::new();
+    for sw in &switches {
+        if u.bool() {
+            let o = Occ {
+                leaf: sw.id,
+                alias: pick_alias(&mut u, sw),
+                value: None,
+                adjacent_only: false,
+            };
+            argv.extend(spell(&o, Spelling::Detached));
+        } else if sw.longs.first().is_some() {
+            want.push(preferred(sw));
+        }
+    }
+    let typed: String = match (u.below(4), named.longs.first()) {
+        (0, _) => String::new(),
+        (1, _) => "-".into(),
+        (2, _) => "--".into(),
+        (_, Some(l)) => format!("--{}", l.chars().take(1 + u.below(l.chars().count())).collect::<String>()),
+        (_, None) => "--".into(),
+    };
+    if named.longs.first().is_some() {
+        want.push(preferred(&named));
+    }
+    // only names that extend the typed text are expected
+    let want: Vec<String> = want
+        .into_iter()
+        .filter(|w| typed.is_empty() || typed == "-" || w.starts_with(&typed))
+        .collect();
+    argv.push(typed.into_bytes());
+    PosAltCase { level, argv, want }
+}
+
+fn check_posalt(bytes: &[u8], ctx: &mut Ctx) -> Verdict {
+    let case = decode_posalt(bytes);
+    let parser = match guarded(|| {
+        let p = build_level(&case.level);
+        p.check_invariants(false);
+        p
+    }) {
+        Ok(p) => p,
+        Err(_) => return Verdict::Skip("definition rejected by check_invariants"),
+    };
+    let out = run_cfg(
+        &parser,
+        &case.argv,
+        &RunCfg {
+            name: None,
+            comp: Some(0),
+        },
+    );
+    ctx.eval(1);
+    ctx.class("family:name-or-positional");
+    if case.argv.len() >= 2 {
+        ctx.nontrivial(fnv_str(&format!("{:?}{:?}", case.level, case.argv)));
+    }
+    let text = match &out {
+        Outcome::Completion(t) => t.clone(),
+        Outcome::Panic { at, msg } => return Verdict::fail(format!("panic@{}", at), msg.clone()),
+        other => {
+            return Verdict::fail(
+                format!("completion-request-answered-with-{}", other.class()),
+                format!("{:?} -> {}", show_argv(&case.argv), other.short()),
+            )
+        }
+    };
+    let parsed = parse_rev0(&text);
+    for w in &case.want {
+        if !parsed.rows.iter().any(|r| r.0 == *w) {
+            return Verdict::fail(
+                "applicable-name-not-offered/alternative-to-a-positional",
+                format!(
+                    "{} on {:?}: {} is visible, not given, extends the typed word, but is not offered\ncompletion output:\n{}",
+                    show_level(&case.level),
+                    show_argv(&case.argv),
+                    w,
+                    text
+                ),
+            );
+        }
+    }
+    Verdict::Pass
+}
+
 impl Prop for C14 {
     fn id(&self) -> &'static str {
         "C14"
@@ -856,6 +1018,10 @@ impl Prop for C14 {
         ]
     }
     fn check(&self, bytes: &[u8], ctx: &mut Ctx) -> Verdict {
+        // one case in eight belongs to the second family
+        if bytes.first().map_or(false, |b| b % 8 == 7) {
+            return check_posalt(&bytes[1..], ctx);
+        }
         let case = decode(bytes);
         check_case(&case, ctx)
     }
@@ -866,6 +1032,15 @@ impl Prop for C14 {
         }]
     }
     fn describe(&self, bytes: &[u8]) -> Value {
+        if bytes.first().map_or(false, |b| b % 8 == 7) {
+            let c = decode_posalt(&bytes[1..]);
+            return json!({
+                "family": "a name that is an alternative to a positional item",
+                "definition": show_level(&c.level),
+                "argv": show_argv(&c.argv),
+                "names_that_must_be_offered": c.want,
+            });
+        }
         let case = decode(bytes);
         json!({
             "definition": show_level(&case.level),
